@@ -2,6 +2,8 @@ import datetime as dt
 import os
 import time
 
+from autofit.tools.util import open_atomic
+
 
 class Timer:
 
@@ -34,7 +36,7 @@ class Timer:
                 float(f.read())
         except FileNotFoundError:
             start = time.time()
-            with open(start_time_path, "w+") as f:
+            with open_atomic(start_time_path, "w+") as f:
                 f.write(str(start))
 
     def update(self):
@@ -47,7 +49,7 @@ class Timer:
         except TypeError:
             return
 
-        with open(
+        with open_atomic(
                 self.timer_path / ".time", "w+"
         ) as f:
             f.write(execution_time)
